@@ -7,9 +7,12 @@
    and, for queries without a continuation id whose contract and first channel level are literal
    (the seek key needs them), EXACTNESS: the seek-and-stop iteration returns precisely the live
    entries that pass ID.Match, in key order, cut only by the limit and the reply-size cap - nothing
-   that matches is skipped.  For continuation queries the converse is checked by the harness
-   against the exhaustive filter on every run. *)
-From Emitter Require Import Lib.Base Model.MsgCodec Model.Store Proofs.IdProofs Proofs.LexOrder Proofs.StoreProofs Proofs.StoreComplete.
+   that matches is skipped; and the same for CONTINUATION pages from any id the query returned (at
+   that time or earlier - the id's own message may have expired since, the case in which the code
+   before the repair of F25 skipped a message): the page is precisely the live matching entries after
+   the id; every message of a continuation page lies strictly after the continuation id, so no
+   message appears on two pages. *)
+From Emitter Require Import Lib.Base Model.MsgCodec Model.Store Proofs.IdProofs Proofs.LexOrder Proofs.StoreProofs Proofs.StoreComplete Proofs.StoreContinue.
 
 (* every message of an answer is a live (not expired) entry of the store whose id passes
    ID.Match for the queried ssid and window - hence never a message of another contract, never an
@@ -71,3 +74,23 @@ Proof.
   intros retain s m S. unfold store_msg. destruct (id_time (m_id m)); [apply store_put_sorted; exact S | exact S | exact S].
 Qed.
 Print Assumptions C06_store_stays_sorted.
+
+(* continuation pages: exact for every id the query returned, now or earlier (the id's own message may
+   have expired since) *)
+Theorem C06_continuation_exact : forall s now q0 q1 qr from until start limit,
+  esorted s -> Forall (fun e => wf_id (key e)) s ->
+  word_ok q0 -> word_ok q1 -> literal q0 -> literal q1 -> time_ok until ->
+  wf_id start -> id_match start (q0 :: q1 :: qr) from until = true ->
+  lookup s now (q0 :: q1 :: qr) from until start limit
+  = cap (map e_msg (filter (fun e => id_match (key e) (q0 :: q1 :: qr) from until)
+                           (filter (fun e => lex_ltb start (key e)) (filter (visible now) s)))) limit [] 0.
+Proof. exact continuation_exact. Qed.
+Print Assumptions C06_continuation_exact.
+
+(* never the same message on two continuation pages: everything a continued lookup returns lies
+   strictly after the continuation id in key order (for every store, query and id) *)
+Theorem C06_pages_disjoint : forall s now ssid from until start limit m,
+  esorted s -> start <> [] ->
+  In m (lookup s now ssid from until start limit) -> lex_ltb start (m_id m) = true.
+Proof. exact continuation_pages_disjoint. Qed.
+Print Assumptions C06_pages_disjoint.
